@@ -64,6 +64,10 @@ CLAIMED = {
  "C06": ("model_checking", "stateless DFS over map-iteration orders on the real code: every `range <map>` of jsight-api-core and jsight-schema-core is rewritten by a type-directed build overlay to take its order from the explorer (deviation-bounded), plus same-process / cross-process / after-another-build repetition",
          "For every project all executions with at most `bound` non-canonically ordered map ranges are run (all permutations for maps of up to 4 keys) and must produce identical catalog + OpenAPI bytes or an identical error tuple; each diverging execution is replayed twice; every project is also built twice in one process, in a second process, and every ordered pair of the hand-written set is built in one process.",
          "Any order the explorer picks is an order the Go runtime may pick; the rewritten loop re-checks the key before each iteration (Go's semantics for entries deleted during the loop). Orders beyond the deviation bound, addresses and time are covered only by the repetition runs. Large corpus projects are capped (reported as not exhaustive)."),
+
+ "C18": ("model_checking", "stateless exploration of thread interleavings of the real code under a cooperative scheduler (package sync replaced by a shim through a build overlay; preemption-bounded DFS with replay), plus a separate free-running race-detector pass",
+         "For each scenario (two threads building different projects and serialising them; two or three threads serialising one catalog; first use of the library from a fresh process) every interleaving with at most `bound` preemptions / sync.Pool-answer deviations is executed on the real code; each thread must obtain the result of the same calls run alone, without deadlock or panic. Diverging schedules are replayed and re-run with fresh pool objects for attribution. The Go race detector runs the same bodies free-running in a separate -race build.",
+         "Scheduling points are the sync operations (and the instant after Pool.Put); effects below that granularity are left to the race detector. For independent builds only objects touched by two threads are scheduling points; every execution asserts the assumption. Executions per scenario are capped in the quick tier (reported)."),
 }
 
 NOT_YET = {}
